@@ -117,6 +117,12 @@ class ClassVal:
     def __init__(self, ci):
         self.ci = ci
 
+    def __eq__(self, o):
+        return isinstance(o, ClassVal) and o.ci is self.ci
+
+    def __hash__(self):
+        return hash(id(self.ci))
+
     def __repr__(self):
         return f"<class {self.ci.name}>"
 
